@@ -282,12 +282,6 @@ func (fs LocalFileSystem) Copy(ctx context.Context, src, dst string, options *Co
 		return false, err
 	}
 
-	srcInfo, err := os.Stat(srcPath)
-	if err != nil {
-		return false, errFromOS(err)
-	}
-	srcPerm := srcInfo.Mode() & os.ModePerm
-
 	if _, err := os.Stat(dstPath); err != nil {
 		if !os.IsNotExist(err) {
 			return false, errFromOS(err)
@@ -307,12 +301,20 @@ func (fs LocalFileSystem) Copy(ctx context.Context, src, dst string, options *Co
 			return err
 		}
 
+		// Copy each member to the same place below the destination
+		rel, err := filepath.Rel(srcPath, p)
+		if err != nil {
+			return err
+		}
+		dstPath := filepath.Join(dstPath, rel)
+
+		perm := fi.Mode() & os.ModePerm
 		if fi.IsDir() {
-			if err := os.Mkdir(dstPath, srcPerm); err != nil {
+			if err := os.Mkdir(dstPath, perm); err != nil {
 				return errFromOS(err)
 			}
 		} else {
-			if err := copyRegularFile(srcPath, dstPath, srcPerm); err != nil {
+			if err := copyRegularFile(p, dstPath, perm); err != nil {
 				return err
 			}
 		}
